@@ -1,7 +1,7 @@
 #!/bin/bash
 # usage: tools/runall.sh <tier> <seed> [jobs]  -- runs every check, prints exit codes and times
 TIER=${1:-quick}; SEED=${2:-1}; JOBS=${3:-20}
-cd /verif
+cd "$(dirname "$0")/.."
 OUT=/tmp/runall.$TIER.$SEED; rm -rf $OUT; mkdir -p $OUT
 ids=$(python3 -c "import json;print(' '.join(c['property_id'] for c in json.load(open('MANIFEST.json'))['checks']))")
 printf '%s\n' $ids | xargs -P $JOBS -I{} sh -c "s=\$(date +%s); VERIF_SEED=$SEED ./check {} --tier $TIER > $OUT/{}.log 2>&1; echo \"{} exit=\$? \$((\$(date +%s)-s))s\" > $OUT/{}.res"
